@@ -595,6 +595,15 @@ func main() {
 				}
 				if g.ovf {
 					o.Count("tuple:excluded-overflow")
+					// measured necessity of the side condition (Lean: C14.overflow_side_condition_necessary): with a
+					// wrapped intermediate the 64-bit Go result and the 256-bit VM result usually differ
+					if p.Core != nil && v != "" {
+						if v != g.plain {
+							o.Count("tuple:overflow-go-vm-differ")
+						} else {
+							o.Count("tuple:overflow-go-vm-same")
+						}
+					}
 					continue
 				}
 				if p.Checked != "" && g.plain != g.checked {
